@@ -162,6 +162,14 @@ ADDED2 = {
     'C18': ' A third of the ratio-path cases also pass a finishing temperature, which must be ignored.',
 }
 
+ADDED3 = {
+    'C06': ' Step sizes of a few units in the last place (1e-17..1e-13 of the range).',
+    'C08': ' A proposal holding a non-finite parameter cuts the stage, which is repeated with that many steps, so the returned state of a real run is what is judged.',
+    'C09': ' About half of the CLI invocations (a function of arguments and thread count) find both output files already present with longer content from an earlier run.',
+    'C10': ' About half of the CLI invocations find both output files already present with longer content from an earlier run with the same --outfile.',
+    'C20': ' Part real-chains: 6e3 (quick) chains of 1..4 stages on real hard and Lennard-Jones states of every group (from_group and rescaled starts, step sizes 1e-3..8): no stage may panic on a state with a finite score.',
+}
+
 NOT_YET = {}
 
 def main():
@@ -172,7 +180,7 @@ def main():
         pid = p["id"]
         if pid in CHECKS:
             tech, text, note, ref = CHECKS[pid]
-            text = text + ADDED.get(pid, '') + ADDED2.get(pid, '')
+            text = text + ADDED.get(pid, '') + ADDED2.get(pid, '') + ADDED3.get(pid, '')
             checks.append({
                 "property_id": pid,
                 "quick_cmd": f"./check {pid} quick",
